@@ -496,3 +496,116 @@ func (a *nilAnalyzer) nilConstResult(m *ssa.Function, k int, depth int) (val, kn
 	}
 	return val, okAll && have
 }
+
+// ruleNilOrder (contradiction rule): a function that tests one of its pointer parameters against
+// nil believes the parameter may be nil; a dereference of that parameter which is not protected by
+// the test and can run before it contradicts that belief (`cap(a.buf) > max || a == nil`): for the
+// nil value the function was written to tolerate — a typed-nil argument on a filtered event — it
+// panics.
+func ruleNilOrder(r *Run, p *Prog, rels []string) {
+	n := 0
+	for _, f := range p.ModFns {
+		okRel := false
+		for _, rel := range rels {
+			if pkgRel(f) == rel {
+				okRel = true
+			}
+		}
+		if !okRel || f.Blocks == nil {
+			continue
+		}
+		for _, par := range f.Params {
+			if !isPointer(par.Type()) {
+				continue
+			}
+			// nil tests of par
+			type check struct {
+				ifi    *ssa.If
+				nonNil int // successor index taken when par != nil
+			}
+			var checks []check
+			for _, b := range f.Blocks {
+				ifi, ok := b.Instrs[len(b.Instrs)-1].(*ssa.If)
+				if !ok {
+					continue
+				}
+				bo, ok := ifi.Cond.(*ssa.BinOp)
+				if !ok || (bo.Op != token.EQL && bo.Op != token.NEQ) {
+					continue
+				}
+				if !((bo.X == ssa.Value(par) && isNilConst(bo.Y)) || (bo.Y == ssa.Value(par) && isNilConst(bo.X))) {
+					continue
+				}
+				nn := 0
+				if bo.Op == token.EQL {
+					nn = 1
+				}
+				checks = append(checks, check{ifi, nn})
+			}
+			if len(checks) == 0 {
+				continue
+			}
+			n++
+			// dereferences of par
+			bad := ""
+			var badPos token.Pos
+			for _, b := range f.Blocks {
+				for _, in := range b.Instrs {
+					deref := false
+					switch x := in.(type) {
+					case *ssa.FieldAddr:
+						deref = x.X == ssa.Value(par)
+					case *ssa.UnOp:
+						deref = x.Op == token.MUL && x.X == ssa.Value(par)
+					}
+					if !deref {
+						continue
+					}
+					protected := false
+					reachesCheck := false
+					for _, c := range checks {
+						cb := c.ifi.Block()
+						nonNilSucc := cb.Succs[c.nonNil]
+						// protected: the block is only reachable through the non-nil edge
+						if nonNilSucc != cb.Succs[1-c.nonNil] && nonNilSucc.Dominates(b) && len(nonNilSucc.Preds) == 1 {
+							protected = true
+						}
+						if b == cb || blockReaches(b, cb) {
+							reachesCheck = true
+						}
+					}
+					if !protected && reachesCheck && bad == "" {
+						bad = descr(in.(ssa.Value))
+						badPos = in.Pos()
+					}
+				}
+			}
+			okc := bad == ""
+			pos := p.Pos(f.Pos())
+			if !okc {
+				pos = p.Pos(badPos)
+			}
+			r.Ob("A9", FnName(f)+"/nil-test-before-use:"+par.Name(), pos, okc, true, tern(okc, "every dereference of "+par.Name()+" that can precede its nil test is protected by it", FnName(f)+" tests "+par.Name()+" against nil but dereferences it ("+bad+") where the test has not been passed yet: for the nil value it was written to tolerate it panics"))
+		}
+	}
+	r.Count("a9_nil_tested_pointer_params", n)
+}
+
+// blockReaches: b can reach target through successor edges (b != target).
+func blockReaches(b, target *ssa.BasicBlock) bool {
+	seen := map[*ssa.BasicBlock]bool{}
+	st := append([]*ssa.BasicBlock{}, b.Succs...)
+	for len(st) > 0 {
+		x := st[len(st)-1]
+		st = st[:len(st)-1]
+		if seen[x] {
+			continue
+		}
+		seen[x] = true
+		if x == target {
+			return true
+		}
+		st = append(st, x.Succs...)
+	}
+	return false
+}
